@@ -23,6 +23,10 @@ fn main() {
         std::process::exit(2);
     }
     pipe::install_panic_hook();
+    if !args[0].to_uppercase().contains("WORKER") {
+        util::cleanup_stale_scratch();
+        pipe::start_watchdog(180);
+    }
     let id = args[0].to_uppercase();
     let (tier, only) = if args[1] == "--replay" {
         let meta = match report::replay_meta(&args[2]) {
